@@ -2,7 +2,7 @@
     (USK container, UFVK / UIVK encode and decode). *)
 From V.Lib Require Import Base Hex.
 From V.Gen Require Import C11Consts.
-From V.C11 Require Import Model Spec Tab Eqb EqbFacts Legacy CorrLegacy Gap CorrGap Corr Wf
+From V.C11 Require Import Model Spec Tab Eqb EqbFacts Legacy CorrLegacy Gap CorrGap Extra CorrExtra Corr Wf
   ProofsAddr ProofsCodec ProofsDecode.
 From Coq Require Import ZifyBool.
 Local Open Scope N_scope.
